@@ -24,10 +24,10 @@ CASES = [
       "    report[TOOL_NAME] = {\n        'success': True,", "    Report.register_tool(TOOL_NAME + '2', reset)\n    report[TOOL_NAME] = {\n        'success': True,"),
     m('builtin-modules-reset-dropped', 'R1', 'state:pedal.types.new_types:BUILTIN_MODULES', TI,
       "    reset_builtin_modules()\n", ""),
-    m('revert-fix-pools', 'R2', 'Report.clear:pools', RP, "        self.format = Formatter()\n        self.pools = []\n        self.chosen_pool = None\n", "        self.format = Formatter()\n        self.chosen_pool = None\n"),
-    m('hooks-not-cleared', 'R2', 'Report.clear:hooks', RP, "        self.hooks.clear()\n", ""),
-    m('suppressions-not-cleared', 'R2', 'Report.clear:suppressions', RP, "        self.suppressions.clear()\n", ""),
-    m('new-init-attribute-never-cleared', 'R2', 'Report.clear:seen_labels', RP,
+    m('revert-fix-pools', 'R2', ':pools', RP, "        self.format = Formatter()\n        self.pools = []\n        self.chosen_pool = None\n", "        self.format = Formatter()\n        self.chosen_pool = None\n"),
+    m('hooks-not-cleared', 'R2', ':hooks', RP, "        self.hooks.clear()\n", ""),
+    m('suppressions-not-cleared', 'R2', ':suppressions', RP, "        self.suppressions.clear()\n", ""),
+    m('new-init-attribute-never-cleared', 'R2', ':seen_labels', RP,
       "        self.resolves = []\n        self.pools = []", "        self.resolves = []\n        self.seen_labels = set()\n        self.pools = []"),
     m('tool-data-survives-clear', 'R3', 'Report.clear:tool-data', RP, "        self._tool_data.clear()\n", ""),
     m('lazy-reset-removed', 'R3', 'lazy-reset', RP,
